@@ -30,10 +30,12 @@ import numpy as np
 
 PROPERTY = "C32"
 TECHNIQUE = "runtime monitoring; deep before/after snapshots (bitwise) around real API calls, entry points and measurement methods discovered by introspection"
-RULE = ("part A: structure kind (ortho/hex/hex60/monoclinic/fcc-primitive/triclinic/tiny-offdiagonal), 1-5 atoms with scaled positions "
-        "in [-0.6,1.6], pbc pattern, optional tags; entry point drawn from orthogonalize_cell, standardize_cell, abtem.atoms helpers, "
+RULE = ("part A: structure kind (ortho/hex/hex60/monoclinic/fcc-primitive/triclinic/tiny-offdiagonal), 0-5 atoms with scaled positions "
+        "in [-0.6,1.6] or exactly on faces/corners, pbc pattern, optional tags; vector arguments as tuple/list/ndarray/ints, box equal "
+        "to the cell, zero tolerances/repetitions/sigmas, seed 0; entry point drawn from orthogonalize_cell, standardize_cell, abtem.atoms helpers, "
         "potential, frozen_phonons, atoms_ensemble, structure_factor, bloch_waves, smatrix with random keyword arguments; part B: "
-        "receiver class (7), real/complex, eager/lazy, ensemble axes, then every public method with generated arguments; non-trivial "
+        "receiver class (7), real/complex, eager/lazy, ensemble axes incl. size 1, size-1 base axes, then every public method with generated "
+        "or (40 %) boundary arguments (zero widths, unit repetitions, full crops, dose 0, seed 0, numpy scalar indices); non-trivial "
         "= the entry point returned normally at least once (A) / at least 10 methods returned a new measurement (B); distinct = "
         "distinct case signature")
 CLAUSES = ["atoms-unchanged-after-return", "atoms-unchanged-after-exception", "receiver-unchanged:returns-new",
@@ -47,6 +49,8 @@ ATOM_OPS = ["orthogonalize_cell", "orthogonalize_cell", "orthogonalize_cell", "s
 STRUCT_KINDS = ["ortho", "ortho", "hex", "hex60", "monoclinic", "fcc", "triclinic", "tiny"]
 RECEIVERS = ["images", "images", "dp", "dp", "polar", "rline", "kline", "indexed", "ensemble"]
 IN_PLACE_BY_CONTRACT = {"compute", "set_ensemble_axes_metadata"}
+# returns a float, and its first call spends ~15 s in numba compilation: thorough tier only
+QUICK_SKIP = {"max_reciprocal_space_vector_length"}
 NOT_CALLED = {"show", "to_zarr", "to_tiff", "to_gpu", "from_zarr", "from_array_and_metadata"}
 
 
@@ -57,9 +61,14 @@ def gen_structure(rng):
     b = float(rng.uniform(2.4, 4.2))
     c = float(rng.uniform(2.5, 6.0))
     n = int(rng.integers(1, 6))
+    if rng.random() < 0.04:
+        n = 0                                   # no atoms at all
+    scaled = rng.uniform(-0.6, 1.6, size=(n, 3)).round(4)
+    if n and rng.random() < 0.3:                # atoms exactly on faces / corners / one period outside
+        scaled[int(rng.integers(0, n))] = rng.choice([0.0, 1.0, -1.0, 2.0, 0.5], size=3)
     return {"kind": kind, "a": a, "b": b, "c": c, "gamma": float(rng.uniform(50, 130)),
             "symbols": [str(rng.choice(["C", "Si", "O", "Au", "N", "Al"])) for _ in range(n)],
-            "scaled": (rng.uniform(-0.6, 1.6, size=(n, 3))).round(4).tolist(),
+            "scaled": scaled.tolist(),
             "pbc": [True, True, True] if rng.random() < 0.6 else [bool(rng.random() < 0.5) for _ in range(3)],
             "tags": bool(rng.random() < 0.3), "eps": float(rng.choice([1e-9, 1e-8, 3e-7, -2e-8])), "seed": int(rng.integers(0, 2 ** 31))}
 
@@ -89,7 +98,8 @@ def build_atoms(s):
         cell[1, 2] = -0.0
     scaled = np.array(s["scaled"], dtype=float).reshape(-1, 3)
     atoms = Atoms(symbols=s["symbols"], cell=cell, pbc=s["pbc"])
-    atoms.set_scaled_positions(scaled)
+    if len(atoms):
+        atoms.set_scaled_positions(scaled)
     # set_scaled_positions wraps nothing; make sure some atoms really are outside
     atoms.positions[:] = scaled @ cell
     if s["tags"]:
@@ -121,11 +131,12 @@ def gen_atom_params(rng, op):
     plane = str(rng.choice(["xy", "xy", "xy", "xz", "yz", "yx", "zx", "zy"]))
     origin = [0.0, 0.0, 0.0] if rng.random() < 0.5 else [float(x) for x in rng.uniform(-1.5, 1.5, size=3).round(3)]
     box = None if rng.random() < 0.6 else [float(x) for x in rng.uniform(3.0, 9.0, size=3).round(3)]
-    p = {"plane": plane, "origin": origin, "box": box}
+    p = {"plane": plane, "origin": origin, "box": box, "box_is_cell": bool(rng.random() < 0.15),
+         "vec_as": str(rng.choice(["tuple", "tuple", "tuple", "list", "ndarray", "int-tuple"]))}
     if op == "orthogonalize_cell":
-        p.update(max_repetitions=int(rng.integers(1, 6)), return_transform=bool(rng.random() < 0.3),
+        p.update(max_repetitions=int(rng.choice([0, 1, 1, 2, 3, 4, 5])), return_transform=bool(rng.random() < 0.3),
                  return_transform_matrix=bool(rng.random() < 0.3), allow_transform=bool(rng.random() < 0.7),
-                 tolerance=float(rng.choice([0.01, 0.001, 0.1])), defaults=bool(rng.random() < 0.3))
+                 tolerance=float(rng.choice([0.01, 0.001, 0.1, 0.0])), defaults=bool(rng.random() < 0.3))
     elif op == "standardize_cell":
         p = {"tol": float(rng.choice([1e-12, 1e-9, 1e-6]))}
     elif op == "helper":
@@ -136,8 +147,8 @@ def gen_atom_params(rng, op):
                  projection=str(rng.choice(["infinite", "infinite", "finite"])), periodic=bool(rng.random() < 0.8),
                  lazy=bool(rng.random() < 0.4), actions=[str(x) for x in rng.choice(
                      ["transformed", "sliced", "build", "build", "len"], size=int(rng.integers(1, 4)))],
-                 num_configs=int(rng.integers(1, 4)), sigmas=str(rng.choice(["float", "dict", "list", "aniso"])),
-                 directions=str(rng.choice(["xyz", "xy", "z"])), fp_seed=int(rng.integers(0, 1000)),
+                 num_configs=int(rng.choice([1, 1, 2, 3])), sigmas=str(rng.choice(["float", "dict", "list", "aniso", "zero"])),
+                 directions=str(rng.choice(["xyz", "xy", "z"])), fp_seed=int(rng.choice([0, 0, 1, 2 ** 32 - 1, int(rng.integers(0, 1000))])),
                  ensemble_mean=bool(rng.random() < 0.5))
         if rng.random() < 0.5:
             p["plane"] = "xy"
@@ -167,6 +178,8 @@ def atoms_helpers():
 def _sigmas(kind, atoms):
     if kind == "float":
         return 0.1
+    if kind == "zero":
+        return 0.0
     if kind == "dict":
         return {s: 0.05 + 0.01 * i for i, s in enumerate(sorted(set(atoms.get_chemical_symbols())))}
     if kind == "list":
@@ -192,7 +205,20 @@ def run_atom_op(ctx, op, atoms, p):
     """Calls the entry point; returns the names of the sub-steps that returned normally."""
     import abtem
     import abtem.atoms as A
-    tup = lambda x: None if x is None else tuple(x)
+    def tup(x):
+        if x is None:
+            return None
+        form = p.get("vec_as", "tuple")
+        if form == "list":
+            return list(x)
+        if form == "ndarray":
+            return np.array(x, dtype=float)
+        if form == "int-tuple" and all(float(v) == int(v) for v in x):
+            return tuple(int(v) for v in x)
+        return tuple(x)
+    if p.get("box_is_cell") and "box" in p:
+        # the box that already is the cell: the early-return path of orthogonalize_cell / no transform in Potential
+        p = dict(p, box=[float(v) for v in np.diag(np.asarray(atoms.cell.array))])
     if op == "orthogonalize_cell":
         if p["defaults"]:
             A.orthogonalize_cell(atoms)
@@ -348,7 +374,10 @@ def gen_measurement(rng):
             e["kind"] = "scan"
     if kind == "ensemble" and not ens:
         ens = [{"kind": "ordinal", "n": 3}]
+    if kind in ("images", "rline", "kline", "ensemble") and rng.random() < 0.1:
+        base[int(rng.integers(0, len(base)))] = 1          # size-1 base axis
     return {"kind": kind, "base": base, "ens": ens, "complex": bool(rng.random() < 0.5), "lazy": bool(rng.random() < 0.4),
+            "hostile": bool(rng.random() < 0.4),
             "chunk_members": bool(rng.random() < 0.5), "seed": int(rng.integers(0, 2 ** 31)),
             "extra_metadata": bool(rng.random() < 0.5)}
 
@@ -486,6 +515,31 @@ def recipe(obj, name, rng, case):
         R["interpolate"] = lambda: {"sampling": u(0.01, 0.08)} if rng.random() < 0.5 else {"gpts": int(rng.integers(8, 50))}
     if kind == "indexed":
         R.update({"crop": lambda: {"max_angle": u(10, 30)}, "remove_low_intensity": lambda: {"threshold": 1e-3}})
+    if case.get("hostile"):
+        # boundary / falsy arguments: zero widths, unit repetitions, full-size crops, dose 0, seed 0, numpy scalar indices
+        H = {
+            "gaussian_filter": lambda: {"sigma": 0.0},
+            "gaussian_source_size": lambda: {"sigma": 0.0},
+            "tile": lambda: {"repetitions": (1, 1) if kind == "images" else 1},
+            "tile_scan": lambda: {"repetitions": (1, 1)},
+            "poisson_noise": lambda: {"total_dose": 0.0, "samples": 1, "seed": 0},
+            "get_items": lambda: {"items": np.int64(0) if rng.random() < 0.5 else -1, "keepdims": True} if n_ens else None,
+            "relative_difference": lambda: {"other": obj.copy(), "min_relative_tol": 0.0},
+            "bandlimit": lambda: {"inner": 0.0, "outer": 0.0},
+            "integrate_radial": lambda: {"inner": 0.0, "outer": 0.0},
+            "width": lambda: {"height": 0.0},
+            "expand_dims": lambda: {"axis": 0},
+            "squeeze": lambda: {"axis": ()},
+        }
+        if kind == "images":
+            H["crop"] = lambda: {"extent": (obj.extent[0], obj.extent[1]), "offset": (0.0, 0.0)}
+            H["interpolate"] = lambda: ({"sampling": obj.sampling} if rng.random() < 0.5 else {"gpts": tuple(obj.base_shape)})
+            H["integrate_disc"] = lambda: {"position": np.array([0.0, 0.0]), "radius": 0.0}
+        for red in ("mean", "sum", "std", "min", "max"):
+            H[red] = lambda: ({"axis": np.int64(0) if rng.random() < 0.5 else -len(obj.shape), "keepdims": True} if n_ens else
+                              {"axis": ()})
+        if name in H:
+            return H[name]()
     if name in R:
         return R[name]()
     try:
@@ -529,6 +583,9 @@ def check_measurement(ctx, case):
         for name in names:
             if name in IN_PLACE_BY_CONTRACT or name in NOT_CALLED:
                 ctx.note("not-called:" + name)
+                continue
+            if ctx.tier == "quick" and name in QUICK_SKIP:
+                ctx.note("not-called-in-quick-tier:" + name)
                 continue
             try:
                 kwargs = recipe(obj, name, rng, case)
@@ -623,6 +680,23 @@ def fixed_cases(tier):
         out.append({"part": "atoms", "structure": hexs if i % 2 else ortho, "op": "helper",
                     "params": {"plane": "yz", "origin": [0.7, -0.4, 0.3], "box": [5.0, 7.0, 9.0], "index": i, "margin": 4.5, "axis": 0,
                                "angles": [1.3, -0.2, 2.1], "tol": 0.5}})
+    empty = dict(ortho, symbols=[], scaled=[])
+    corner = dict(ortho, symbols=["C", "Si", "O"], scaled=[[0.0, 0.0, 0.0], [1.0, 1.0, 1.0], [-1.0, 0.5, 2.0]])
+    out += [
+        {"part": "atoms", "structure": corner, "op": "orthogonalize_cell", "params": dict(O, defaults=False, box_is_cell=True, vec_as="int-tuple")},
+        {"part": "atoms", "structure": corner, "op": "orthogonalize_cell", "params": dict(O, defaults=False, vec_as="list", max_repetitions=0, tolerance=0.0)},
+        {"part": "atoms", "structure": dict(hexs, scaled=[[0.0, 0.0, 0.0], [1.0, 1.0, 1.0]]), "op": "orthogonalize_cell",
+         "params": dict(O, defaults=False, vec_as="ndarray", origin=[0.0, 0.0, 0.0])},
+        {"part": "atoms", "structure": empty, "op": "orthogonalize_cell", "params": O},
+        {"part": "atoms", "structure": empty, "op": "potential", "params": P},
+        {"part": "atoms", "structure": corner, "op": "frozen_phonons", "params": dict(P, num_configs=1, sigmas="zero", fp_seed=0)},
+        {"part": "atoms", "structure": corner, "op": "atoms_ensemble", "params": dict(P, box_is_cell=True, vec_as="int-tuple")},
+        {"part": "atoms", "structure": corner, "op": "potential", "params": dict(P, box_is_cell=True, projection="finite", lazy=True)},
+    ]
+    for k, kind in enumerate(["images", "dp", "rline"]):
+        out.append({"part": "measurement", "kind": kind, "base": [16, 18] if kind != "rline" else [1],
+                    "ens": [{"kind": "scan", "n": 1}, {"kind": "scan", "n": 2}] if kind == "dp" else [{"kind": "ordinal", "n": 1}],
+                    "complex": kind != "dp", "lazy": False, "chunk_members": True, "seed": 0, "extra_metadata": False, "hostile": True})
     for k, kind in enumerate(["images", "dp", "polar", "rline", "kline", "indexed", "ensemble"]):
         out.append({"part": "measurement", "kind": kind, "base": [16, 18] if kind not in ("rline", "kline") else [24],
                     "ens": [{"kind": "scan", "n": 3}, {"kind": "scan", "n": 2}] if kind in ("dp", "polar", "indexed") else
